@@ -1487,6 +1487,10 @@ def run(ctx):
             extra_oracles.univariate_constant_history(ctx)
             from .. import extra_oracles2
             extra_oracles2.serial_independent_copies(ctx)
+            from .. import extra_oracles3
+            extra_oracles3.failed_save(ctx)
+            extra_oracles3.float32_roundtrip(ctx)
+            extra_oracles3.gm_restored_models(ctx)
         except Exception as ex:
             ctx.obligation('oracle:extra:raised', False, 'correspondence', repr(ex))
             ctx.violation('oracle:extra:raised:' + type(ex).__name__, 'constant round-trip oracle raised ' + repr(ex), {'repro': '# see tools/vf/extra_oracles.py'})
